@@ -75,6 +75,8 @@ def make_image(rnd, g, ns, nf):
 class C11(object):
     id = "C11"
     engine = "simomp"
+    time_keys = {"steps": "scheduler steps (one per instrumented access, GOMP entry or allocator call)"}
+    fault_keys = ["switches", "realloc_moved", "realloc_stay", "alloc", "free", "parallel_runs", "dset_grew(realloc)"]
     tiers = {"quick": {"runs": 14000, "budget_s": 60, "selftest_every": 40, "fresh_selftest": 10},
              "thorough": {"runs": 1500000, "budget_s": 800, "selftest_every": 300, "fresh_selftest": 20}}
     rule = ("one run = (image 2x2..64x64 incl. checkerboards/spirals/combs/isolated grids, threshold possibly equal to "
